@@ -1835,7 +1835,7 @@ def Inv(x):
         \mathrm{Inv}: Y_i = X_i^{-1}
 
     Args:
-        input (LieTensor): the input LieTensor (Lie Group or Lie Algebra)
+        x (LieTensor): the input LieTensor (Lie Group or Lie Algebra)
 
     Return:
         LieTensor: the output LieTensor (Lie Group or Lie Algebra)
@@ -2644,7 +2644,7 @@ def Jr(x):
     The batched right Jacobian of a LieTensor.
 
     Args:
-        input (LieTensor): the input LieTensor (either Lie Group or Lie Algebra)
+        x (LieTensor): the input LieTensor (either Lie Group or Lie Algebra)
 
     Return:
         Tensor: the right Jocobian Matrices
